@@ -25,17 +25,20 @@ func init() {
 		Level: "exploration",
 		Rule: "seeded token descriptions for both token types: every option present/absent (minimal, full and random combinations), nested argument and metadata values of every IPLD kind with finite numbers (incl. integral-valued floats, boundary integers, empty collections, null at and below the top level), policies of every statement kind, proof lists 0..5, nonce 12..64 bytes, time bounds incl. the extremes the constructors accept (2^53-1 s and beyond), issuers of all seven pool key kinds; each built through the constructors, then ToSealed/ToDagCbor/ToDagJson (+ writer variants) and decoded by {generic, typed} x {bytes, reader} decoders. " +
 			"Oracle: a constructor-accepted token must seal and decode, every decoded variant must agree with the original on every field read through the accessors (time at whole seconds), generic == typed. " +
+			"Purity (also in a -race build): a sample of these calls on shared objects is repeated in reverse / shuffled order and from 16..32 goroutines at once; every outcome must equal the first one and the race detector must stay silent. " +
 			"non-trivial = token with at least one optional field or nested value; distinct = (field values digest, issuer algorithm, codec).",
 		Assumptions: []string{
 			"strings are valid UTF-8 and no generated map is {\"/\": ...} (DAG-JSON cannot represent those); NaN/Inf excluded by the property",
 			"field comparison through gen.Fields (accessors only)",
 		},
-		Shards:      shards(8, 16),
-		Run:         runC07,
-		MinEvals:    floor(4000, 150000),
-		MinDistinct: floor(500, 15000),
+		Shards:          shards(8, 16),
+		RaceShards:      shards(1, 2),
+		RaceIsViolation: true,
+		Run:             runC07,
+		MinEvals:        floor(4000, 150000),
+		MinDistinct:     floor(500, 15000),
 		RequiredCells: func(string) []string {
-			cells := []string{"dlg", "inv", "minimal", "full", "time/beyond-2^53", "time/2^53-1", "null/top-level-meta", "null/top-level-arg", "float/integral", "dec/generic", "dec/typed", "dec/reader", "codec/dagcbor", "codec/dagjson"}
+			cells := []string{"purity/seal-unseal/history", "purity/seal-unseal/concurrent", "dlg", "inv", "minimal", "full", "time/beyond-2^53", "time/2^53-1", "null/top-level-meta", "null/top-level-arg", "float/integral", "dec/generic", "dec/typed", "dec/reader", "codec/dagcbor", "codec/dagjson"}
 			for _, a := range gen.Algs {
 				cells = append(cells, "alg/"+a)
 			}
@@ -304,6 +307,9 @@ func algClass(alg string, err error) string {
 }
 
 func runC07(w *mon.W) {
+	if purityGate(w, c07Purity) {
+		return
+	}
 	r := w.Rng
 	total := w.Share(w.Pick(600, 20000))
 	vo := gen.ValOpts{IntegralF: false}
@@ -322,7 +328,7 @@ func runC07(w *mon.W) {
 		// make every algorithm an issuer regularly
 		if it%7 == 0 {
 			pool := gen.Pool()
-			o.Issuer = pool[(it/7)%len(pool)]
+			o.Issuer = pool[(it/7+w.Shard*((total+6)/7))%len(pool)] // shards continue where the previous one stopped
 		}
 		s := gen.RandomSpec(r, typ, o)
 		c07One(w, s, label)
